@@ -16,7 +16,9 @@ import types
 
 TARGETS = {"geodepy.geodesy": ["vincdir", "vincinv"],
            "geodepy.convert": ["xyz2llh", "llh2xyz", "geo2grid", "grid2geo"],
-           "geodepy.transform": ["conform7", "conform14"]}
+           "geodepy.transform": ["conform7", "conform14"],
+           "geodepy.angles": ["dec2hp", "dec2hpa", "dec2gon", "dec2gona", "dec2dms", "dec2ddm", "hp2dec", "hp2deca", "hp2rad", "hp2gon",
+                              "hp2gona", "hp2dms", "hp2ddm", "gon2dec", "gon2deca", "gon2hp", "gon2hpa", "gon2rad", "gon2dms", "gon2ddm"]}
 STATE = {"depth": 0, "out": None, "test": ""}
 
 
@@ -25,7 +27,7 @@ def enc(v):
     t = type(v).__name__
     if v is None or isinstance(v, (bool, str)):
         return v
-    if isinstance(v, (int, float, np.floating, np.integer)):
+    if isinstance(v, (int, float, np.floating, np.integer)) and t not in ("DECAngle", "HPAngle", "GONAngle", "DMSAngle", "DDMAngle"):
         return {"f": float(v).hex()}
     if isinstance(v, (datetime.date,)):
         return {"date": v.toordinal()}
@@ -47,13 +49,32 @@ def enc(v):
                           "sd": [float(getattr(sd, k)).hex() for k in ("sd_tx", "sd_ty", "sd_tz", "sd_sc", "sd_rx", "sd_ry", "sd_rz")]
                           if type(sd).__name__ == "TransformationSD" else []}}
     if t in ("DECAngle", "HPAngle", "GONAngle", "DMSAngle", "DDMAngle"):
-        return {"angle": t, "dec": float(v.dec()).hex()}
+        o = {"angle": t, "dec": float(v.dec()).hex()}
+        if t == "DECAngle":
+            o["fields"] = [float(v.dec_angle).hex()]
+        elif t == "HPAngle":
+            o["fields"] = [float(v.hp_angle).hex()]
+        elif t == "GONAngle":
+            o["fields"] = [float(v.gon_angle).hex()]
+        elif t == "DMSAngle":
+            o["fields"] = [bool(v.positive), int(v.degree), int(v.minute), float(v.second).hex()]
+        else:
+            o["fields"] = [bool(v.positive), int(v.degree), float(v.minute).hex()]
+        return o
     return {"other": t}
+
+
+SAMPLED = set()          # functions the tests call in long loops: the first 60 calls and then every 1499th are recorded
+COUNT = {}
 
 
 def wrap(name, fn):
     @functools.wraps(fn)
     def w(*a, **k):
+        if name in SAMPLED:
+            n = COUNT[name] = COUNT.get(name, 0) + 1
+            if n > 60 and n % 1499:
+                return fn(*a, **k)
         STATE["depth"] += 1
         rec = {"fn": name, "args": enc(a), "kwargs": {x: enc(y) for x, y in k.items()}, "depth": STATE["depth"], "test": STATE["test"]}
         try:
@@ -91,6 +112,8 @@ def pytest_configure(config):
             continue
         for n in names:
             orig = getattr(home, n)
+            if mname == "geodepy.angles":
+                SAMPLED.add(n)
             w = wrap(n, orig)
             for m in mods:
                 if getattr(m, n, None) is orig:
